@@ -18,7 +18,8 @@ Inductive case :=
 | Helper (values : list Q) (failed : list bool) (answers : list (Q * list Q))
 | Filt (cfg : config) (m : method) (objs : list (list oQ)) (cns : option (list (list oQ)))
        (obs : outcome (list Q))
-| E2E (c : e2e_case).
+| E2E (c : e2e_case)
+| Seq (c : seq_case).
 
 Definition is_cvar (m : method) : bool :=
   match m with CvarObjective _ _ | CvarConstraint _ _ => true | _ => false end.
@@ -30,4 +31,5 @@ Definition check_case (c : case) : bool :=
       forallb (fun a : Q * list Q => valid_percentile (fst a) && cvar_answer_ok (fst a) values failed (snd a)) answers
   | Filt cfg m objs cns obs => is_cvar m && filter_answer_ok cfg m objs cns obs
   | E2E x => e2e_ok x
+  | Seq x => seq_ok x
   end.
